@@ -204,6 +204,7 @@ class loops(wrapper):
             return self._wrapped(arg, args_, kwargs_)
     
     def _wrapped(self, arg, args, kwargs):
+        args = tuple(args) ## args may be a generator: each element of arg needs to see all of them
         axis = kwargs.pop('axis', 0)
         if isinstance(arg, dict) and type(arg) in self.types:
             keys = sorted(arg.keys())
